@@ -200,36 +200,58 @@ Readings(s, b) ==
 Denote(chars, base) == {r.v : r \in Readings(chars, base)}
 \* one unit of the last printed digit, per reading
 Ulp(chars, base) == {r.ulp : r \in Readings(chars, base)}
-Supported(chars, base) == Readings(chars, base) # {}
 
 -----------------------------------------------------------------------------
-(* the rules of C05, on a set of readings (so that a judge can bind Readings once) *)
-ExactIn(rs, v) == \E r \in rs : QEq(r.v, v)
+(* the rules of C05 on a set of readings *)
+ExactR(r, v) == QEq(r.v, v)
 
 \* v truncated toward zero at the last printed digit: same sign (or zero), not larger in magnitude,
 \* and less than one unit of the last digit away.  Only a terminating positional numeral can be that.
-ApproxIn(rs, v) ==
-  \E r \in rs :
-    /\ r.kind = "pos"
-    /\ (QSign(r.v) = 0 \/ QSign(r.v) = QSign(v))
-    /\ QLe(QAbs(r.v), QAbs(v))
-    /\ QLt(QAbs(v), r.up)                       \* |v| - |numeral| < ulp
+TruncR(r, v) ==
+  /\ r.kind = "pos"
+  /\ (QSign(r.v) = 0 \/ QSign(r.v) = QSign(v))
+  /\ QLe(QAbs(r.v), QAbs(v))
+  /\ QLt(QAbs(v), r.up)                       \* |v| - |numeral| < ulp
 
 \* shown behind `approx.`: a truncation that really is not the value itself
-StrictIn(rs, v) ==
-  \E r \in rs :
-    /\ r.kind = "pos"
-    /\ (QSign(r.v) = 0 \/ QSign(r.v) = QSign(v))
-    /\ QLt(QAbs(r.v), QAbs(v))
-    /\ QLt(QAbs(v), r.up)
+StrictR(r, v) == TruncR(r, v) /\ ~QEq(r.v, v)
 
+ExactIn(rs, v) == \E r \in rs : ExactR(r, v)
+ApproxIn(rs, v) == \E r \in rs : TruncR(r, v)
+StrictIn(rs, v) == \E r \in rs : StrictR(r, v)
 \* a stated period is the length of the bracketed block
 PeriodIn(rs) == \A r \in rs : r.per = -1 \/ r.per = r.blk
-
 \* exact, or a truncation toward zero by less than one unit of the last digit (unmarked list entries)
 WithinIn(rs, v) == ExactIn(rs, v) \/ ApproxIn(rs, v)
 
-ExactOK(v, text, base) == ExactIn(Readings(text, base), v)
-ApproxOK(v, text, base) == ApproxIn(Readings(text, base), v)
-PeriodOK(text, base) == PeriodIn(Readings(text, base))
+-----------------------------------------------------------------------------
+(* The same rules on the text, reading by reading.  In bases >= 15 a numeral such as 0.f3e8209 has,
+   besides its plain reading, the reading 0.f3 x base^8209, whose value costs minutes to compute.  The
+   operators below take the readings one at a time - fractions; else the reading without exponent, then
+   one per exponent marker - and stop at the first that satisfies the rule (TLC enumerates a set of
+   integers in increasing order and leaves an \E at the first witness); syntax questions need no arithmetic. *)
+IsFracText(s) == PosOf(s, ChSlash) # {}
+Splits(s) == {0} \cup ExpSplits(s)
+
+SplitSyntax(s, k, b) ==
+  LET mant == IF k = 0 THEN s ELSE Take(s, k - 1)
+      body == IF s[1] = ChMinus THEN Drop(mant, 1) ELSE mant
+  IN IF body = <<>> THEN BadMant ELSE MantParse(body, b)
+
+SomeReading(s, b, P(_)) ==
+  IF s = <<>> THEN FALSE
+  ELSE IF IsFracText(s) THEN \E r \in FracReadings(s, b) : P(r)
+  ELSE \E k \in Splits(s) : \E r \in SplitReadings(s, k, b) : P(r)
+
+Supported(s, b) ==
+  /\ s # <<>>
+  /\ IF IsFracText(s) THEN FracReadings(s, b) # {} ELSE \E k \in Splits(s) : SplitSyntax(s, k, b).ok
+
+ExactOK(v, s, b) == SomeReading(s, b, LAMBDA r : ExactR(r, v))
+ApproxOK(v, s, b) == SomeReading(s, b, LAMBDA r : TruncR(r, v))
+StrictOK(v, s, b) == SomeReading(s, b, LAMBDA r : StrictR(r, v))
+WithinOK(v, s, b) == SomeReading(s, b, LAMBDA r : ExactR(r, v) \/ TruncR(r, v))
+PeriodOK(s, b) ==
+  s = <<>> \/ IsFracText(s)
+  \/ \A k \in Splits(s) : LET m == SplitSyntax(s, k, b) IN m.ok => (m.per = -1 \/ m.per = Len(m.blk))
 =============================================================================
